@@ -319,6 +319,23 @@ def symbolic_for(eng, s, fr, it):
         except ContinueEx:
             pass
         _note_loop_effects(eng, tag, n_eff, declared_effects(con, k_ord))
+        # the loop rule reads the iterated list as a fixed sequence; Python iterates by index over the LIVE list: an
+        # iteration that changes the list it iterates (and goes on iterating) skips or repeats elements, so every "for
+        # each element" clause would be about another loop.  Proved here, quantifier-free: at the end of an iteration
+        # that continues, the iterated heap list is the one the iteration started with (a copy made by the header -
+        # list(x), sorted(x), x + y - is a temporary nobody else references and is not concerned)
+        if is_list and isinstance(it, ListV) and it.heap is None:
+            same = []
+            for nme in sorted(eng.heap.sorts):
+                if nme == 'L.len' or nme.startswith('L.data:'):
+                    new_a, old_a = eng.heap.get(nme), iter_old.heap.get(nme, eng.heap.sorts[nme])
+                    if not new_a.eq(old_a):
+                        same.append(new_a[it.ref] == old_a[it.ref])
+            if same:
+                eng.run.oblige(f'safe:list-changed-while-iterated@{eng.cur_fn}:{s.lineno}', 'safe',
+                               z3.And(same) if len(same) > 1 else same[0], s.lineno,
+                               detail='an iteration that goes on changes the list the loop iterates (Python iterates the live list '
+                                      'by index: elements are skipped or repeated)')
         # per-iteration postconditions, effect predicates relative to the start of this iteration:
         #   loop<K>_iter        sees k = number of elements done INCLUDING this one (element = seq[k - 1])
         #   loop<K>_iter_<name> sees k = index of this element (element = loop_items[k])
